@@ -17,9 +17,9 @@ STR_POOL = ["with_field", "f_.*", "a|b", "[a-z_]+", "Foo", "plain_fn", "a b", "x
 HAZARD = ["-dash", "--looks-like-flag", "-"]
 
 
-def rt1(args, timeout=120):
+def rt1(args, timeout=120, header=None):
     exe = os.path.join(vlib.TARGET, "debug", "bgv")
-    rc, out, err = sh2([exe, "rt1", enc(HEADER)] + [enc(a) for a in args], timeout=timeout, cwd=os.path.dirname(HEADER))
+    rc, out, err = sh2([exe, "rt1", enc(header or HEADER)] + [enc(a) for a in args], timeout=timeout, cwd=os.path.dirname(HEADER))
     d = {"rc": rc, "err": err[-600:]}
     for l in out.splitlines():
         k, _, v = l.partition(" ")
@@ -267,7 +267,7 @@ def judge(ck, calls, d, ctx):
     """one dynamic round trip: classify a failure"""
     ck.evaluations += 1
     k = failing(d)
-    if k and len(calls) > 1:
+    if k and len(calls) > 1 and ctx != "multi-header":
         calls, d = shrink(calls, k)
         ctx += " (shrunk)"
     if "SKIP" in d:
@@ -348,6 +348,19 @@ def dynamic(ck, t, done, quick):
                 continue
             calls.append(m if k == "unit" else "%s=%s" % (m, a))
         cases.append((calls, "random"))
+    # several input headers and position-sensitive clang arguments: the header-ordering convention
+    # (last header positional, the others via -include AFTER the user's clang arguments) must survive the round trip
+    D = os.path.dirname(HEADER)
+    first, second, cfg = (os.path.join(D, x) for x in ("first.h", "second.h", "cfg.h"))
+    multi = [(["header=" + second, "clang_arg=-include", "clang_arg=" + cfg], first),
+             (["header=" + second], first),
+             (["clang_arg=-include", "clang_arg=" + cfg, "header=" + second, "derive_eq=1"], first),
+             (["header=" + second, "clang_arg=-DHANDLE_IS_WIDE=1"], first),
+             (["header=" + first, "header=" + second, "clang_arg=-include", "clang_arg=" + cfg], cfg),
+             (["clang_arg=-imacros", "clang_arg=" + cfg, "header=" + second], first)]
+    mres = [rt1(c, header=h) for c, h in multi]
+    for (c, h), d in zip(multi, mres):
+        judge(ck, ["<first header: %s>" % os.path.basename(h)] + c, d, "multi-header")
     # the leading-dash hazard, separately
     strm = [m for m, k in done if k == "str" and m not in skip]
     for m in r.sample(strm, min(len(strm), 6 if quick else 40)):
